@@ -71,6 +71,20 @@ def main() -> int:
                 print(f"replay: instance {k} no longer exists on this tree")
         return finish(ctx, getattr(mod, "LEVEL", ""), getattr(mod, "EXPLANATION", ""))
     except AnalysisError as e:
+        # a violation that was already established stands, whatever could not be analysed afterwards
+        try:
+            c_ = locals().get("ctx")
+            if c_ is not None and any(not o.ok for o in c_.obs):
+                from sa.report import load_known
+                kn = {k["key"] for k in load_known().get("known", []) if k.get("property") == prop}
+                if any((not o.ok) and o.fkey not in kn for o in c_.obs):
+                    c_.notes.append(f"analysis stopped early: {e}")
+                    c_.minimum = {r: 0 for r in c_.minimum}
+                    c_.shared_errors = []
+                    print(f"  note: analysis stopped early ({e}); the findings established before that are reported")
+                    return finish(c_, getattr(mod, "LEVEL", ""), getattr(mod, "EXPLANATION", ""))
+        except AnalysisError:
+            pass
         print(f"ANALYSIS-ERROR property={prop} {e}")
         return 2
     except Exception:
